@@ -159,6 +159,12 @@ func cmdCheck(args []string) int {
 		}
 		ex := &Explorer{prog: prog, fn: fn, spec: hs, cfg: cfg, workers: *workers, solverBin: *solver,
 			rlimit: envInt("GOSYM_RLIMIT", 0), tmoMs: tmo, seed: seed}
+		ex.knownLabels = map[string]bool{}
+		for _, k := range known {
+			if k.Status != "fixed" && k.Property == spec.Property && k.Harness == hs.Name {
+				ex.knownLabels[k.Label] = true
+			}
+		}
 		res := ex.Run()
 		results = append(results, res)
 		if *verbose {
